@@ -152,9 +152,11 @@ def shard_direct(sh, part):
         else:
             args3 = (dict(relevance), dict(redundancy), dict(relation))
             persistent = args3
+        snap3 = tuple(dict(d_) for d_ in args3)
         ok, out = sh.call('permutation-with-ranks', 'rank_features_3MR', rank_features_3MR, *args3, **kwargs)
         if not ok:
             continue
+        sh.check('permutation-with-ranks', all(dict(a_) == b_ for a_, b_ in zip(args3, snap3)), 'ranking-modified-the-score-dictionaries', lambda: {'sizes_before': [len(b_) for b_ in snap3], 'sizes_after': [len(a_) for a_ in args3]})
         nontrivial = verify(sh, out, relevance, redundancy, relation, strategy, alpha, beta, 'direct')
         sh.case((n, strategy, alpha, beta, core.h64((sorted(map(repr, relevance.items())), sorted(map(repr, redundancy.items())), sorted(map(repr, relation.items()))))), nontrivial,
                 '%s/%s/density=%s' % (strategy, grid, density), sample={'n': n, 'strategy': strategy, 'alpha': alpha, 'beta': beta, 'relevance': {repr(k): v for k, v in list(relevance.items())[:5]},
